@@ -150,6 +150,49 @@ func HCborAlloc() {
 	nd.Reach("end")
 }
 
+// HCborWide: heads with 2-, 4- and 8-byte arguments (declared lengths up to 2^64-1) for every
+// major type, followed by a few items, into the proxy (hints, depth, budget) and into the real
+// builder (allocation counter): the claims of HCborProxy / HCborAlloc for inputs whose length
+// fields are far larger than the input.
+func HCborWide() {
+	w := nd.Choose("width", 3)
+	n := []int{3, 5, 9}[w]
+	in := append(nd.Bytes("head", n), 0x61, 0x61, 0x01, 0x01)
+	nd.Assume(in[0]&31 == byte(25+w))
+	// the high bytes free, the middle ones zero: lengths like 0x01000000, 0xff00000000000001
+	for i := 2; i < n-1; i++ {
+		nd.Assume(in[i] == 0)
+	}
+	var o dagcbor.DecodeOptions
+	o.AllowLinks = true
+	o.AllocationBudget = nd.Int64("budget")
+	o.MaxCollectionPrealloc = nd.Int64("prealloc")
+	nd.Assume(o.AllocationBudget >= 0 && o.AllocationBudget <= 1<<20)
+	nd.Assume(o.MaxCollectionPrealloc >= 0 && o.MaxCollectionPrealloc <= 1<<16)
+	budget := o.AllocationBudget
+	if budget == 0 {
+		budget = 1048576 * 10
+	}
+	if nd.Choose("target", 2) == 0 {
+		t := &tally{}
+		var err error
+		nd.NoPanic("decode", func() { err = o.Decode(proxy{t}, bytes.NewReader(in)) })
+		nd.Assert(t.maxHint <= eff(o.MaxCollectionPrealloc, 1024) && t.minHint >= 0, "size hints stay within [0, preallocation cap], whatever length the input claims")
+		if err == nil {
+			nd.Assert(t.cost <= budget, "accepted input stays within the allocation budget")
+		} else {
+			nd.Assert(t.cost-int64(len(in))-8 <= budget, "work done before rejecting is bounded by budget + input length")
+		}
+	} else {
+		nb := basicnode.Prototype.Any.NewBuilder()
+		nd.AllocStart()
+		nd.NoPanic("decode", func() { o.Decode(nb, bytes.NewReader(in)) })
+		a := nd.AllocBytes()
+		nd.Assert(a <= 256*budget+256*int64(len(in))+16384, "allocation is bounded by 256*budget + 256*len(input) + 16KiB")
+	}
+	nd.Reach("end")
+}
+
 // HJson: the DAG-JSON/JSON decoder under every option setting, proxy and real builder.
 func HJson() {
 	in := nd.Bytes("in", nd.Choose("len", nd.Param("N", 2)+1))
